@@ -45,6 +45,9 @@ type imgSpec struct {
 	Data  int    `json:"data"`  // 1: descriptors of config, first layer (and index children) carry inline data
 	Ext   int    `json:"ext"`   // 1: the first layer is a foreign layer with external urls (blob present at the source)
 	Alg   string `json:"alg"`   // digest algorithm of every digest of the source: "" = sha256 | sha512
+	Base  int    `json:"base"`  // 1: OCI manifests carry the base image annotations (name = the new base, digest = the old one)
+
+	baseName, baseDigest string // filled in by the driver for Base = 1
 }
 
 type blobT struct {
@@ -323,10 +326,18 @@ func newBuilt(sp imgSpec) *built {
 	return &built{Alg: alg, Objs: map[string]*blobT{}, Refs: map[string][]map[string]any{}}
 }
 
+func (sp imgSpec) annos(m map[string]string) map[string]string {
+	if sp.Base == 1 {
+		m["org.opencontainers.image.base.name"] = sp.baseName
+		m["org.opencontainers.image.base.digest"] = sp.baseDigest
+	}
+	return m
+}
+
 func buildImage(sp imgSpec) *built {
 	b := newBuilt(sp)
 	if sp.Shape == "image" {
-		b.Root = b.oneImage(sp, "l", sp.N, sp.Hist, "amd64", map[string]string{"keep.anno": "v"})
+		b.Root = b.oneImage(sp, "l", sp.N, sp.Hist, "amd64", sp.annos(map[string]string{"keep.anno": "v"}))
 		if sp.Refs == 1 {
 			b.referrer(b.Root, "image")
 		}
@@ -339,7 +350,7 @@ func buildImage(sp imgSpec) *built {
 	entries := []any{}
 	kids := []string{}
 	for _, a := range archs {
-		d := b.oneImage(sp, "l", sp.N, sp.Hist, a, map[string]string{"keep.anno": "v", "common.anno": "c"})
+		d := b.oneImage(sp, "l", sp.N, sp.Hist, a, sp.annos(map[string]string{"keep.anno": "v", "common.anno": "c"}))
 		kids = append(kids, d)
 		e := desc(mmt, d, len(b.Objs[d].Raw))
 		e["platform"] = map[string]any{"architecture": a, "os": "linux"}
@@ -359,7 +370,7 @@ func buildImage(sp imgSpec) *built {
 	}
 	idx := map[string]any{"schemaVersion": 2, "mediaType": imt, "manifests": entries}
 	if sp.MT != "docker" {
-		idx["annotations"] = map[string]string{"keep.anno": "v"}
+		idx["annotations"] = sp.annos(map[string]string{"keep.anno": "v"})
 	}
 	ib := mustJSON(idx)
 	b.Root = b.add(ib, true, imt)
